@@ -41,7 +41,7 @@ def build_repo():
 def ids_or_all(args):
     ids = [a for a in args if not a.startswith("--")]
     if not ids:
-        ids = sorted(d for d in os.listdir(SEEDED) if os.path.isdir(os.path.join(SEEDED, d)))
+        ids = sorted(d for d in os.listdir(SEEDED) if os.path.isdir(os.path.join(SEEDED, d)) and not d.startswith("_"))
     return ids
 
 
@@ -130,7 +130,7 @@ def cmd_check(args):
         if a == "--seed": seed = args[i + 1]
     ids = [a for i, a in enumerate(args) if not a.startswith("--") and (i == 0 or args[i - 1] not in ("--also", "--tier", "--seed"))]
     if not ids:
-        ids = sorted(d for d in os.listdir(SEEDED) if os.path.isdir(os.path.join(SEEDED, d)))
+        ids = sorted(d for d in os.listdir(SEEDED) if os.path.isdir(os.path.join(SEEDED, d)) and not d.startswith("_"))
     assert repo_clean(), "/repo working tree is not clean"
     for sid in ids:
         d = os.path.join(SEEDED, sid)
